@@ -28,12 +28,15 @@ PROPS = {
     },
     "C08": {
         "lean": ["Stackage.Props.C08"],
-        "streams": [{"name": "histx", "quick": 3000, "thorough": 60000}],
+        "streams": [{"name": "histx", "quick": 3000, "thorough": 60000}, {"name": "awk", "quick": 2000, "thorough": 40000}],
         "rule": "histories of the content mutators whose int arguments are drawn from {MinInt, MinInt+1, -Len-1..Len+1, MaxInt} on stacks of "
                 "length 0..4, all four index-option combinations, every kind; after each call Len/Index*/Front/Back/Cap/Avail are re-read; "
-                "non-trivial = at least 3 operations of at least 2 kinds",
+                "non-trivial = at least 3 operations of at least 2 kinds; stream awk: Push / Insert / Replace / IsEqual / Transfer / ConvertStack / "
+                "ConvertCondition / Cond(expression) fed with typed nil pointers of depth 1-2 (incl. nil *Alias, *Stack, *Condition, **int), nil maps / funcs / chans / "
+                "slices, structs with unexported fields (by value and by pointer), funcs, chans, maps, arrays, errors, zero-valued Stacks / Conditions / aliases, "
+                "followed by String / Unmarshal / IsEqual / Transfer / Reveal / Defrag / Traverse on the stack holding them",
         "modelled": COMMON_MODELLED,
-        "assumptions": ["lengths < 2^62, ints are 64-bit"],
+        "assumptions": ["lengths < 2^62, ints are 64-bit", "IsEqual / Defrag / Reveal totality over the value universe is proved with their own models (C05, C19, C20); here they are exercised for panics only"],
     },
     "C02": {
         "lean": ["Stackage.Props.C02"],
